@@ -135,6 +135,13 @@ def search(ctx):
             bad = [c for c in range(arr.size) if not np.array_equal(scan[:, c], ebisim.drxs_vec(el, float(arr[c]), w))]
             if not np.array_equal(es, arr) or bad:
                 add("dr_scan_columns", f"drxs_energyscan(Z={z}, fwhm={w}) column(s) {bad} differ from drxs_vec at the sampled energies {arr[bad].tolist() if bad else ''}", {"Z": z, "w": w, "e": arr.tolist()})
+        if not el.dr_e_res.size:
+            # an element without resonance data: a caller's array / two limits are sampled as for every other element (all-zero columns)
+            arr = 10 ** rng.uniform(1, 4, 5)
+            es, scan = ebisim.drxs_energyscan(el, w, arr, 9)
+            es2, scan2 = ebisim.drxs_energyscan(el, w, np.array([20.0, 5000.0]), 9)
+            if not np.array_equal(es, arr) or scan.shape != (z + 1, 5) or np.any(scan != 0) or es2.size != 9 or abs(es2[0] - 20) > 1e-9 or abs(es2[-1] - 5000) > 1e-6 or np.any(scan2 != 0):
+                add("dr_scan_columns", f"drxs_energyscan(Z={z}: no resonance data) does not sample the caller's energies ({es[:3]}… for {arr[:3]}…; {es2.size} points {es2[:1]}..{es2[-1:]} for the limits 20, 5000 eV and n = 9)", {"Z": z, "w": w})
         if el.dr_e_res.size and el.dr_e_res.min() - 3 * w > 0:
             es, scan = ebisim.drxs_energyscan(el, w, None, 30)
             if not (abs(es[0] - (el.dr_e_res.min() - 3 * w)) < 1e-9 * es[0] and abs(es[-1] - (el.dr_e_res.max() + 3 * w)) < 1e-9 * es[-1]):
